@@ -11,6 +11,18 @@ every taxon permutation and ordered sub-selection, the factories, and the summar
 (inverse, max/min/mean, min/max inbreeding, is_positive_semidefinite) against exact
 rational linear algebra; finally the genotype data of the same object are edited in place
 and four estimators are asked again (nothing may remember the old matrix).
+
+Two further layers leave the n,m <= 3 scope on purpose:
+  sweep    dimension-dependent arithmetic: every marker count m = 1..300 (thorough 1..1100, plus 2^15-1,
+           2^15+1, 2^16+1) x 5 structured genotype patterns x n in {2,3} x 4 kinds, and taxon counts
+           n = 1..40 (80) plus 63..65, 127..129, 255..257 (511..513) x 3 patterns x m in {1,2}, through all
+           four estimators (10 argument tuples) against the exact formulas evaluated per pair of distinct
+           genotype rows (integer arithmetic) — a narrow accumulator that wraps at 2^7, 2^8, 2^15, 2^16 shows here;
+  history  depth-2 histories on ONE coancestry object: all views, in-place operation, all views, in-place
+           operation, all views, for all 9 x 9 operation pairs (reorder x2, sort, group, ungroup, mat setter,
+           apply_jitter, remove_taxa, append_taxa), 5 estimator objects, 39 (thorough 193) genotype matrices;
+           oracle: kinship view exactly half of the CURRENT matrix and every view / summary equal to that of a
+           fresh object built from the current matrix and labels (whether an operation itself is right is C03's).
 """
 from __future__ import annotations
 import itertools, math
@@ -30,7 +42,9 @@ RULE = ("one case = (genotype matrix, label variant, estimator, argument tuple):
         "individuals); 'deep' cases (6 per genotype matrix) additionally run kinship/coancestry accessors, inverse / "
         "extreme / mean / inbreeding summaries in both formats, is_positive_semidefinite, the factory, and from_gmat of every "
         "permuted / sub-selected genotype matrix; after all cases of a genotype matrix its first taxon is complemented in place "
-        "and 4 estimators are re-evaluated against the formulas of the edited matrix; cases whose formula divides by zero (VanRaden: sum p(1-p)=0, Yang: some "
+        "and 4 estimators are re-evaluated against the formulas of the edited matrix; sweep layer: one case per (kind, pattern, "
+        "n, m, estimator, arguments) for every marker count / listed taxon count; history layer: one case per (genotype matrix, "
+        "estimator object, ordered pair of in-place operations) with all views compared after every step; cases whose formula divides by zero (VanRaden: sum p(1-p)=0, Yang: some "
         "p(1-p)=0) are excluded and counted; distinct = (kind, n, m, matrix index, labels, estimator, arguments); "
         "non-trivial = the reference matrix is not a multiple of the all-ones matrix")
 ASSUME = ["floats compared with rel 1e-9 / abs 1e-12; kinship = coancestry/2 compared exactly (halving is exact in binary64)",
@@ -161,32 +175,45 @@ def materialise(form_idx, alpha, m):
         return v, [Fraction(float(v))] * m
     if form == "intscalar":
         return int(ix), [Fraction(int(ix))] * m
+    if form == "cycarray":                       # a short index pattern repeated along the markers (sweeps)
+        ix = tuple(ix[j % len(ix)] for j in range(m))
     vals = [float(alpha[i]) for i in ix]
     return numpy.array(vals, dtype="float64"), [Fraction(v) for v in vals]
 
 
 # ----------------------------------------------------------------------------
 class GmatCase:
-    def __init__(self, kind, n, m, idx, labelvar, seed):
+    def __init__(self, kind, n, m, idx, labelvar, seed, arr=None, extra=None):
+        """arr: explicit genotype array (sweeps) instead of matrix number idx; extra: fields added to case()"""
         self.kind, self.n, self.m, self.idx, self.labelvar, self.seed = kind, n, m, idx, labelvar, seed
         self.c = int(kind[1])
-        arr = decode(kind, n, m, idx)
+        self.extra = extra
+        self.tmap = None
+        if arr is None:
+            arr = decode(kind, n, m, idx)
         self.gm = self.make(arr, self.labels(list(range(n))))
         if labelvar == 2:
             self.gm.group_taxa()
         self.snap = self.gm.mat.copy()
+        self.refresh(reduce=extra is not None)
+
+    def refresh(self, reduce=False):
+        """(re)read the genotype data of the object into the reference model"""
         self.A = self.alleles(self.gm.mat)
         self.a = R.counts(self.A)
         self.pdata = R.freq_from_data(self.a, self.c)
+        if reduce:                                  # few distinct genotype rows: evaluate per pair of row types
+            reps, self.tmap = R.row_types(self.A)
+            self.A_t, self.a_t = reps, R.counts(reps)
 
     def labels(self, rows):
         if self.labelvar == 0:
             return None, None
         nm, gr = NAMES[self.seed % 3], GROUPS[self.seed % 3]
-        names = numpy.array([nm[i] for i in rows], dtype=object)
+        names = numpy.array([nm[i] if i < 3 else f"{nm[i % 3]}{i}" for i in rows], dtype=object)
         if self.labelvar == 3:                      # names without group labels
             return names, None
-        return (names, numpy.array([gr[i] for i in rows], dtype="int64"))
+        return (names, numpy.array([gr[i % 3] for i in rows], dtype="int64"))
 
     def make(self, arr, lab):
         cls = _gcls(self.kind)
@@ -202,12 +229,18 @@ class GmatCase:
         return [[[int(mat[ph, i, l]) for ph in range(c)] for l in range(m)] for i in range(n)]
 
     def case(self, est, args):
-        return dict(kind=self.kind, n=self.n, m=self.m, idx=int(self.idx), labelvar=self.labelvar, seed=self.seed,
-                    est=est, args={k: [v[0], (list(v[1]) if isinstance(v[1], tuple) else v[1])] for k, v in args.items()})
+        out = dict(kind=self.kind, n=self.n, m=self.m, idx=int(self.idx), labelvar=self.labelvar, seed=self.seed,
+                   est=est, args={k: [v[0], (list(v[1]) if isinstance(v[1], tuple) else v[1])] for k, v in args.items()})
+        if self.extra:
+            out.update(self.extra)
+        return out
 
 
 def reference(G: GmatCase, est, args, a=None, pdata=None, A=None):
     """-> (library kwargs, exact reference matrix or None if the formula's denominator vanishes)"""
+    if G.tmap is not None and a is None:
+        kw, Gt = reference(G, est, args, a=G.a_t, pdata=G.pdata, A=G.A_t)
+        return kw, (None if Gt is None else R.expand(Gt, G.tmap))
     a = G.a if a is None else a
     pdata = G.pdata if pdata is None else pdata
     A = G.A if A is None else A
@@ -246,10 +279,19 @@ def _lab_equal(x, y):
 
 def check_estimate(ctx, G: GmatCase, est, args, deep):
     P = f"Dense{est}CoancestryMatrix"
-    kw, ref = reference(G, est, args)
-    if ref is None:
-        ctx.count(f"excluded:{est}:zero-denominator")
-        return None
+    if G.tmap is not None:
+        # sweep case: few distinct genotype rows -> exact reference per pair of row types, expanded as floats
+        assert not deep
+        kw, ref_t = reference(G, est, args, a=G.a_t, pdata=G.pdata, A=G.A_t)
+        ref = None
+        if ref_t is None:
+            ctx.count(f"excluded:{est}:zero-denominator")
+            return None
+    else:
+        kw, ref = reference(G, est, args)
+        if ref is None:
+            ctx.count(f"excluded:{est}:zero-denominator")
+            return None
     cls = _cls(est)
     gm = G.gm
     lab0 = [None if v is None else v.copy() for v in (gm.taxa, gm.taxa_grp, gm.taxa_grp_name, gm.taxa_grp_stix, gm.taxa_grp_spix, gm.taxa_grp_len)]
@@ -257,12 +299,16 @@ def check_estimate(ctx, G: GmatCase, est, args, deep):
     cm = cls.from_gmat(gm, **kw)
     ctx.transitions += 1
     n = G.n
-    reff = numpy.array(R.to_float(ref), dtype="float64").reshape(n, n)
+    if ref is None:
+        tix = numpy.array(G.tmap, dtype="int64")
+        reff = numpy.array(R.to_float(ref_t), dtype="float64").reshape(len(ref_t), len(ref_t))[numpy.ix_(tix, tix)]
+    else:
+        reff = numpy.array(R.to_float(ref), dtype="float64").reshape(n, n)
     mat = cm.mat
     require(isinstance(cm, cls), P + ".from_gmat:type", lambda: f"returned {type(cm).__name__}")
     require(isinstance(mat, numpy.ndarray) and mat.shape == (n, n) and mat.dtype == numpy.float64, P + ".from_gmat:shape", lambda: f"{getattr(mat, 'shape', None)} {getattr(mat, 'dtype', None)}")
     require(_near(mat, reff), P + ".from_gmat:value",
-            lambda: f"genotypes {G.gm.mat.tolist()} ploidy {G.c} args {_show(kw)}: got {mat.tolist()}, published formula gives {reff.tolist()}")
+            lambda: _value_detail(G, kw, mat, reff))
     require(_near(mat, mat.T), P + ".from_gmat:symmetry", lambda: f"{mat.tolist()}")
     ev = numpy.linalg.eigvalsh(0.5 * (mat + mat.T))
     require(float(ev.min()) >= -1e-10 * max(1.0, float(numpy.trace(mat))), P + ".from_gmat:psd", lambda: f"eigenvalues {ev.tolist()} of {mat.tolist()}")
@@ -280,7 +326,7 @@ def check_estimate(ctx, G: GmatCase, est, args, deep):
     ctx.transitions += 2
     require(numpy.array_equal(C, mat), B + ".mat_asformat:coancestry", "coancestry view differs from mat")
     require(K.shape == mat.shape and numpy.array_equal(K, mat / 2.0), B + ".mat_asformat:kinship-half", lambda: f"kinship {K.tolist()} is not half of {mat.tolist()}")
-    if any(ref[i][j] != ref[0][0] for i in range(n) for j in range(n)):
+    if float(reff.min()) != float(reff.max()):
         ctx.count("nontrivial-cases")
         if deep:
             ctx.nontriv((G.kind, n, G.m, G.idx, G.labelvar, est))
@@ -288,6 +334,15 @@ def check_estimate(ctx, G: GmatCase, est, args, deep):
         ctx.outcome(mat.tobytes())
         _deep(ctx, G, est, args, kw, cm, ref, reff)
     return cm
+
+
+def _value_detail(G, kw, mat, reff):
+    if mat.size <= 16 and G.gm.mat.size <= 40:
+        return f"genotypes {G.gm.mat.tolist()} ploidy {G.c} args {_show(kw)}: got {mat.tolist()}, published formula gives {reff.tolist()}"
+    bad = numpy.argwhere(~(numpy.abs(mat - reff) <= 1e-12 + 1e-9 * numpy.abs(reff)))
+    i, j = (int(v) for v in bad[0])
+    return (f"{G.n} taxa x {G.m} markers ({G.extra}) ploidy {G.c} args {list(kw)}: entry ({i},{j}) = {mat[i, j]!r}, published formula gives "
+            f"{reff[i, j]!r}; {len(bad)} of {mat.size} entries differ")
 
 
 def _near(x, y):
@@ -419,6 +474,294 @@ def run_gmat(ctx, kind, n, m, idx, labelvar, level, seed, only=None, force_deep=
                         vanraden_p_from_data=(None if R.vanraden(G.a, G.c, G.pdata) is None else R.to_float(R.vanraden(G.a, G.c, G.pdata)))))
 
 
+# ----------------------------------------------------------------------------
+# dimension sweeps: structured genotype patterns with few distinct rows, every marker count / many taxon counts
+PATTERNS_M = ("identical-hom", "complementary", "one-het", "alternating", "mixed")
+PATTERNS_N = ("two-lines", "cycle", "one-odd")
+SWEEP_PLAN = [("Molecular", {}),
+              ("VanRaden", {"p": ("none", None)}), ("VanRaden", {"p": ("scalar", 1)}), ("VanRaden", {"p": ("cycarray", (1, 2, 3))}),
+              ("Yang", {"p": ("none", None)}), ("Yang", {"p": ("scalar", 1)}), ("Yang", {"p": ("cycarray", (1, 2))}),
+              ("GeneralizedWeighted", {"w": ("none", None), "f": ("none", None)}),
+              ("GeneralizedWeighted", {"w": ("cycarray", (1, 2, 0)), "f": ("scalar", 1)}),
+              ("GeneralizedWeighted", {"w": ("none", None), "f": ("cycarray", (1, 2, 3))})]
+SWEEP_PLAN_BIG = [SWEEP_PLAN[0], SWEEP_PLAN[2], SWEEP_PLAN[7]]
+
+
+def pattern_counts(name, n, m, c):
+    """allele counts (n x m) of a structured pattern for ploidy c"""
+    if name == "identical-hom":
+        return [[c] * m for _ in range(n)]
+    if name in ("complementary", "two-lines"):
+        if name == "two-lines":
+            return [[(c if (l + i) % 2 == 0 else 0) for l in range(m)] for i in range(n)]
+        return [[c if i % 2 == 0 else 0] * m for i in range(n)]
+    if name == "one-het":
+        het = [c // 2 if c > 1 else (l % 2) for l in range(m)]
+        return [het] + [[c] * m for _ in range(n - 1)]
+    if name == "alternating":
+        rows = [[c if (i + l) % 2 == 0 else 0 for l in range(m)] for i in range(min(n, 2))]
+        return rows + [[(l % (c + 1)) for l in range(m)] for _ in range(n - 2)]
+    if name == "mixed":
+        return [[(i + l) % (c + 1) for l in range(m)] for i in range(n)]
+    if name == "cycle":
+        return [[(i + l) % (c + 1) for l in range(m)] for i in range(n)]
+    if name == "one-odd":
+        return [[c] * m for _ in range(n - 1)] + [[0] + [c // 2] * (m - 1)]
+    raise ValueError(name)
+
+
+def counts_to_array(kind, counts):
+    a = numpy.array(counts, dtype="int8")
+    if kind[0] == "U":
+        return a
+    c = int(kind[1])
+    return numpy.stack([(a > k).astype("int8") for k in range(c)], axis=0)
+
+
+def run_sweep_case(ctx, kind, pattern, n, m, seed, plan, only=None):
+    c = int(kind[1])
+    arr = counts_to_array(kind, pattern_counts(pattern, n, m, c))
+    G = GmatCase(kind, n, m, -1, 1, seed, arr=arr, extra=dict(layer="sweep", pattern=pattern))
+    ctx.transitions += 1
+    ctx.state(digest(("sweep", kind, pattern, n, m)))
+    allok = True
+    for est, args in plan:
+        if only is not None and (est, args) != only:
+            continue
+        ctx.evaluations += 1
+        ok = ctx.guard(lambda: check_estimate(ctx, G, est, args, False), case=G.case(est, args), sig_prefix=f"Dense{est}CoancestryMatrix.from_gmat:")
+        allok &= ok
+        ctx.count(f"sweep-cases:{est}")
+    if allok:
+        ctx.traces += 1
+    ctx.flag(f"sweep:pattern:{pattern}")
+    ctx.flag(f"sweep:kind:{kind}")
+
+
+def m_grid(tier):
+    return list(range(1, (1100 if tier == "thorough" else 300) + 1))
+
+
+BIG_M = (2 ** 15 - 1, 2 ** 15 + 1, 2 ** 16 + 1)
+
+
+def n_grid(tier):
+    small = list(range(1, (80 if tier == "thorough" else 40) + 1))
+    big = [63, 64, 65, 127, 128, 129, 255, 256, 257] + ([511, 512, 513] if tier == "thorough" else [])
+    return small + [v for v in big if v not in small]
+
+
+def sweep_shards(tier):
+    out = []
+    ms = m_grid(tier)
+    step = 50 if tier == "thorough" else 25
+    for kind in KINDS:
+        for i in range(0, len(ms), step):
+            out.append(("sweepm", kind, ms[i], ms[min(len(ms), i + step) - 1]))
+    for kind in ("U2", "P2"):
+        out.append(("sweepm-big", kind))
+    ns = n_grid(tier)
+    for kind in KINDS:
+        out.append(("sweepn", kind, [v for v in ns if v <= 80]))
+    for kind in ("U2", "P2"):
+        for v in ns:
+            if v > 80:
+                out.append(("sweepn", kind, [v]))
+    return out
+
+
+def run_sweep_shard(spec, ctx):
+    seed = ctx.seed
+    if spec[0] == "sweepm":
+        _, kind, lo, hi = spec
+        for m in range(lo, hi + 1):
+            for n in (2, 3):
+                for pat in PATTERNS_M:
+                    run_sweep_case(ctx, kind, pat, n, m, seed, SWEEP_PLAN)
+            ctx.count("sweep:marker-counts" if kind == "U2" else "sweep:marker-counts:" + kind)
+        ctx.flag("sweep:m>=128" if hi >= 128 else "sweep:m<128")
+    elif spec[0] == "sweepm-big":
+        for m in BIG_M:
+            for pat in ("complementary", "alternating"):
+                run_sweep_case(ctx, spec[1], pat, 2, m, seed, SWEEP_PLAN_BIG)
+        ctx.flag("sweep:m>=2^15")
+    else:
+        _, kind, ns = spec
+        for n in ns:
+            for m in ((1, 2) if n <= 80 else (2,)):
+                for pat in (PATTERNS_N if n <= 80 else PATTERNS_N[:2]):
+                    run_sweep_case(ctx, kind, pat, n, m, seed, SWEEP_PLAN)
+            ctx.count("sweep:taxon-counts" if kind == "U2" else "sweep:taxon-counts:" + kind)
+            if n >= 128:
+                ctx.flag("sweep:n>=128")
+
+
+# ----------------------------------------------------------------------------
+# histories on ONE coancestry object: views, in-place operation, views, in-place operation, views
+HIST_OPS = ("reorder-rotate", "reorder-reverse", "sort_taxa", "group_taxa", "ungroup_taxa", "mat-setter", "apply_jitter",
+            "remove_taxa", "append_taxa")
+HIST_EST = [("Molecular", {}), ("VanRaden", {"p": ("none", None)}), ("VanRaden", {"p": ("scalar", 1)}),
+            ("Yang", {"p": ("scalar", 1)}), ("GeneralizedWeighted", {"w": ("none", None), "f": ("none", None)})]
+
+
+def _apply_op(cm, op, other):
+    """apply one in-place operation of the public API; returns False when it is not applicable to the current size"""
+    n = cm.mat.shape[0]
+    if op == "reorder-rotate":
+        cm.reorder_taxa(numpy.roll(numpy.arange(n), -1))
+    elif op == "reorder-reverse":
+        cm.reorder_taxa(numpy.arange(n)[::-1].copy())
+    elif op == "sort_taxa":
+        if cm.taxa is None and cm.taxa_grp is None:
+            return False
+        cm.sort_taxa()
+    elif op == "group_taxa":
+        if cm.taxa_grp is None:
+            return False
+        cm.group_taxa()
+    elif op == "ungroup_taxa":
+        cm.ungroup_taxa()
+    elif op == "mat-setter":
+        cm.mat = 2.0 * cm.mat + numpy.eye(n)
+    elif op == "apply_jitter":
+        numpy.random.seed(20240 + n)                  # apply_jitter draws from the global stream; pinned for determinism
+        cm.apply_jitter()
+    elif op == "remove_taxa":
+        if n < 2:
+            return False
+        cm.remove_taxa(0)
+    elif op == "append_taxa":
+        if n > 3 or not _lab_kind_equal(cm, other):
+            return False
+        cm.append_taxa(other)
+    else:
+        raise ValueError(op)
+    return True
+
+
+def _lab_kind_equal(a, b):
+    return (a.taxa is None) == (b.taxa is None) and (a.taxa_grp is None) == (b.taxa_grp is None)
+
+
+def _views(cm):
+    """every read-only view / summary of the object; an exception is an observation too"""
+    out = {}
+
+    def grab(name, f):
+        try:
+            v = f()
+            out[name] = numpy.array(v, dtype="float64") if not isinstance(v, (bool, numpy.bool_)) else bool(v)
+        except Exception as e:
+            out[name] = "raises " + type(e).__name__
+    n = cm.mat.shape[0]
+    grab("mat_asformat[kinship]", lambda: cm.mat_asformat("kinship"))
+    grab("mat_asformat[coancestry]", lambda: cm.mat_asformat("coancestry"))
+    grab("kinship(i,j)", lambda: [[cm.kinship(i, j) for j in range(n)] for i in range(n)])
+    grab("coancestry(i,j)", lambda: [[cm.coancestry(i, j) for j in range(n)] for i in range(n)])
+    for fmt in ("coancestry", "kinship"):
+        grab(f"inverse[{fmt}]", lambda fmt=fmt: cm.inverse(format=fmt))
+        grab(f"min_inbreeding[{fmt}]", lambda fmt=fmt: cm.min_inbreeding(format=fmt))
+        grab(f"max_inbreeding[{fmt}]", lambda fmt=fmt: cm.max_inbreeding(format=fmt))
+        for meth in ("max", "min", "mean"):
+            for axis in (None, 0):
+                grab(f"{meth}[{fmt},axis={axis}]", lambda fmt=fmt, meth=meth, axis=axis: getattr(cm, meth)(format=fmt, axis=axis))
+    grab("is_positive_semidefinite", lambda: cm.is_positive_semidefinite())
+    return out
+
+
+def _view_equal(a, b):
+    if isinstance(a, str) or isinstance(b, str) or isinstance(a, bool) or isinstance(b, bool):
+        return type(a) is type(b) and a == b
+    return a.shape == b.shape and bool(numpy.all(numpy.isclose(a, b, rtol=1e-9, atol=1e-12, equal_nan=True)))
+
+
+def _fresh_like(cm):
+    """a brand-new object of the same class built from the CURRENT observable state"""
+    f = type(cm)(mat=cm.mat.copy(), taxa=None if cm.taxa is None else cm.taxa.copy(), taxa_grp=None if cm.taxa_grp is None else cm.taxa_grp.copy())
+    for k in ("taxa_grp_name", "taxa_grp_stix", "taxa_grp_spix", "taxa_grp_len"):
+        v = getattr(cm, k)
+        setattr(f, k, None if v is None else v.copy())
+    return f
+
+
+def _check_views(ctx, cm, done):
+    """all views of the object must describe its current matrix"""
+    B = "DenseCoancestryMatrix"
+    mat = cm.mat
+    K = cm.mat_asformat("kinship")
+    ctx.transitions += 1
+    require(K.shape == mat.shape and numpy.array_equal(K, mat / 2.0, equal_nan=True), B + ".mat_asformat:kinship-half:after-in-place-operation",
+            lambda: f"after {done}: kinship view {K.tolist()} is not half of the current matrix {mat.tolist()}")
+    got, exp = _views(cm), _views(_fresh_like(cm))
+    ctx.transitions += 2 * len(got)
+    for name in got:
+        require(_view_equal(got[name], exp[name]), f"{B}.{name.split('[')[0]}:stale-after-in-place-operation",
+                lambda: f"after {done}: {name} = {got[name]!r} but a fresh object with the same matrix and labels gives {exp[name]!r}")
+    finite = numpy.isfinite(mat).all()
+    if finite:
+        for fmt, sc in (("coancestry", 1.0), ("kinship", 0.5)):
+            require(_view_equal(got[f"max[{fmt},axis=None]"], numpy.array(sc * mat.max())) and _view_equal(got[f"mean[{fmt},axis=0]"], sc * mat.mean(axis=0))
+                    and _view_equal(got[f"max_inbreeding[{fmt}]"], numpy.array(sc * numpy.diag(mat).max())), B + ".summary:stale-after-in-place-operation",
+                    lambda: f"after {done}: max/mean/max_inbreeding ({fmt}) do not describe the current matrix {mat.tolist()}")
+
+
+def run_history(ctx, G: GmatCase, est, args, ops):
+    kw, ref = reference(G, est, args)
+    if ref is None:
+        return None
+    cls = _cls(est)
+    cm = cls.from_gmat(G.gm, **kw)
+    other = cls.from_gmat(G.gm, **kw)
+    ctx.transitions += 2
+    done = []
+    _check_views(ctx, cm, "construction")
+    for op in ops:
+        before = (cm.mat.copy(), None if cm.taxa is None else cm.taxa.copy())
+        try:
+            applicable = _apply_op(cm, op, other)
+        except Exception:
+            # whether an in-place operation itself works on this state (e.g. apply_jitter on the NaN-padded result of
+            # append_taxa) belongs to C03; this layer is about the views after operations that did succeed
+            ctx.count("history:operation-raised:" + op)
+            return False
+        if not applicable:
+            ctx.count("history:operation-not-applicable")
+            return False
+        ctx.transitions += 1
+        done.append(op)
+        if cm.mat.shape != before[0].shape or not numpy.array_equal(cm.mat, before[0], equal_nan=True) or (cm.taxa is not None and cm.taxa.tolist() != before[1].tolist()):
+            ctx.flag("history:changes-something:" + op)
+        _check_views(ctx, cm, " -> ".join(done))
+    ctx.outcome(cm.mat.tobytes())
+    return True
+
+
+def hist_gmats(tier):
+    """genotype matrices whose coancestry objects are driven through histories: (kind, n, m, idx, labelvar)"""
+    out = [("U2", 3, 1, idx, 1) for idx in range(27)]
+    out += [("U2", 2, 2, idx, lv) for idx in (5, 33, 61, 80) for lv in (0, 2, 3)]
+    if tier == "thorough":
+        out += [("U2", 2, 2, idx, 1) for idx in range(81)] + [("P2", 2, 1, idx, 1) for idx in range(16)]
+        out += [("U2", 3, 2, idx, 1) for idx in range(0, 729, 13)]
+    return out
+
+
+def run_hist_shard(spec, ctx):
+    _, lo, hi = spec
+    for kind, n, m, idx, lv in hist_gmats(ctx.tier)[lo:hi]:
+        G = GmatCase(kind, n, m, idx, lv, ctx.seed)
+        ctx.state(digest(("hist", kind, n, m, idx, lv)))
+        for est, args in HIST_EST:
+            for op1 in HIST_OPS:
+                for op2 in HIST_OPS:
+                    ctx.evaluations += 1
+                    case = dict(G.case(est, args), layer="hist", ops=[op1, op2])
+                    if ctx.guard(lambda: run_history(ctx, G, est, args, (op1, op2)), case=case, sig_prefix=f"Dense{est}CoancestryMatrix:history:"):
+                        ctx.traces += 1
+                    ctx.count("histories")
+            ctx.flag("history:" + est)
+
+
 EDIT_PLAN = [("Molecular", {}), ("VanRaden", {"p": ("none", None)}), ("Yang", {"p": ("scalar", 1)}),
              ("GeneralizedWeighted", {"w": ("none", None), "f": ("none", None)})]
 
@@ -435,9 +778,7 @@ def _edit_stage(ctx, G: GmatCase, only=None):
         return True
     G.gm.mat[...] = new
     G.snap = G.gm.mat.copy()
-    G.A = G.alleles(G.gm.mat)
-    G.a = R.counts(G.A)
-    G.pdata = R.freq_from_data(G.a, G.c)
+    G.refresh()
     ok = True
     for est, args in EDIT_PLAN:
         if only is not None and (est, args) != only:
@@ -498,10 +839,19 @@ def shards(tier, seed):
         step = max(1, int(target / per))
         for lo in range(0, N, step):
             out.append((kind, n, m, level, labelvars, lo, min(N, lo + step)))
+    out += sweep_shards(tier)
+    ng = len(hist_gmats(tier))
+    out += [("hist", lo, min(ng, lo + 3)) for lo in range(0, ng, 3)]
     return out
 
 
 def run_shard(spec, ctx):
+    if spec[0] in ("sweepm", "sweepm-big", "sweepn"):
+        ctx.bounds.update({"sweep_marker_counts": f"1..{m_grid(ctx.tier)[-1]} + {list(BIG_M)}", "sweep_taxon_counts": n_grid(ctx.tier)})
+        return run_sweep_shard(spec, ctx)
+    if spec[0] == "hist":
+        ctx.bounds.update({"history_depth": 2, "history_operations": list(HIST_OPS), "history_objects": len(hist_gmats(ctx.tier)) * len(HIST_EST)})
+        return run_hist_shard(spec, ctx)
     kind, n, m, level, labelvars, lo, hi = spec
     ctx.bounds.update({"n_taxa_max": 3, "n_markers_max": 3, "kinds": list(KINDS), "p_alphabet": PALPHA[ctx.seed % 3],
                        "w_alphabet": WALPHA[ctx.seed % 3],
@@ -541,6 +891,11 @@ def finalize(ctx, tier, seed):
         assert f"arg:GeneralizedWeighted:f:{f}" in ctx.flags, f
     for f in ("none", "scalar", "intscalar", "array"):
         assert f"arg:GeneralizedWeighted:w:{f}" in ctx.flags, f
+    for f in ["sweep:m<128", "sweep:m>=128", "sweep:m>=2^15", "sweep:n>=128"] + ["sweep:pattern:" + q for q in PATTERNS_M + PATTERNS_N] \
+            + ["sweep:kind:" + k for k in KINDS] + ["history:" + e for e, _ in HIST_EST] + ["history:changes-something:" + o for o in HIST_OPS if o != "ungroup_taxa"]:
+        assert f in ctx.flags, f
+    assert ctx.counters.get("sweep:marker-counts", 0) >= 300 and ctx.counters.get("sweep:taxon-counts", 0) >= 40
+    assert ctx.counters.get("histories", 0) > 5000
     assert "edit-stage" in ctx.flags and ctx.counters.get("cases:after-in-place-edit", 0) > 100
     for f in ("deep:inverse", "deep:min_inbreeding", "deep:psd-true", "deep:permutation", "deep:subselection"):
         assert f in ctx.flags, f
@@ -552,6 +907,13 @@ def finalize(ctx, tier, seed):
 
 def replay(case, ctx):
     args = {k: (v[0], (tuple(v[1]) if isinstance(v[1], list) else v[1])) for k, v in case["args"].items()}
+    if case.get("layer") == "sweep":
+        run_sweep_case(ctx, case["kind"], case["pattern"], case["n"], case["m"], case["seed"], [(case["est"], args)])
+        return
+    if case.get("layer") == "hist":
+        G = GmatCase(case["kind"], case["n"], case["m"], case["idx"], case["labelvar"], case["seed"])
+        ctx.guard(lambda: run_history(ctx, G, case["est"], args, tuple(case["ops"])), case=case, sig_prefix=f"Dense{case['est']}CoancestryMatrix:history:")
+        return
     if case.get("edited"):
         G = GmatCase(case["kind"], case["n"], case["m"], case["idx"], case["labelvar"], case["seed"])
         for est, a, _deep_flag in plan(case["m"], "core"):          # the calls that preceded the edit
